@@ -26,8 +26,15 @@ from .types import (
 )
 
 
+def _introspection_default_resolver(root, _ctx, info, **_args):
+    # The introspection types describe library objects: their plain fields are
+    # always attribute lookups, whatever default resolver the schema uses.
+    return getattr(root, info.field_definition.python_name, None)
+
+
 __Schema__ = ObjectType(
     "__Schema",
+    default_resolver=_introspection_default_resolver,
     description=(
         "A GraphQL Schema defines the capabilities of a GraphQL server. "
         "It exposes all available types and directives on the server, "
@@ -83,6 +90,7 @@ __Schema__ = ObjectType(
 
 __Directive__ = ObjectType(
     "__Directive",
+    default_resolver=_introspection_default_resolver,
     description=(
         "A Directive provides a way to describe alternate runtime execution "
         "and type validation behavior in a GraphQL document."
@@ -207,6 +215,7 @@ def _resolve_type_kind(type_, *_):
 
 __Type__ = ObjectType(
     "__Type",
+    default_resolver=_introspection_default_resolver,
     description=(
         "The fundamental unit of any GraphQL Schema is the type. There are "
         "many kinds of types in GraphQL as represented by the `__TypeKind` "
@@ -289,6 +298,7 @@ __Type__ = ObjectType(
 
 __EnumValue__ = ObjectType(
     "__EnumValue",
+    default_resolver=_introspection_default_resolver,
     description=(
         "One possible value for a given Enum. Enum values are unique values, "
         "not a placeholder for a string or numeric value. However an Enum "
@@ -329,6 +339,7 @@ def _format_default_value(
 
 __InputValue__ = ObjectType(
     "__InputValue",
+    default_resolver=_introspection_default_resolver,
     description=(
         "Arguments provided to Fields or Directives and the input fields "
         "of an InputObject are represented as Input Values which describe "
@@ -353,6 +364,7 @@ __InputValue__ = ObjectType(
 
 __Field__ = ObjectType(
     "__Field",
+    default_resolver=_introspection_default_resolver,
     description=(
         "Object and Interface types are described by a list of Fields, "
         "each of which has a name, potentially a list of arguments, and "
